@@ -34,6 +34,8 @@ def _team(sl, files):
         nb = concrete(fresh_int("car%d_number_of_bases" % c, 0, sl["max_bases"]))
         first = concrete(fresh_int("car%d_first_base" % c, 0, 2)) if nb else 0
         bases = [base_names[(first + j) % 3] for j in range(nb)]
+        if nb and c == ncars - 1 and bool(fresh_bool("car%d_names_its_first_base_twice" % c)):
+            bases.append(bases[0])  # e.g. base=vanilla,g1gc,vanilla
         used_bases_per_car.append(bases)
         cfg = FakeConfig({"meta": {"description": "car %d" % c, "type": "car" if nb else "mixin"}, "config": {"base": ",".join(bases)}})
         if bool(fresh_bool("car%d_defines_x" % c)):
